@@ -261,6 +261,9 @@ class CombineLatestRemoveUpstream(IndexedInputs, TopoBase):
         selfv = st.new_obj('combine_latest', f)
         U, who, idx = self._io
         up = VRef(who, 'Stream')
+        # list.remove(upstream) reuses the split of the inputs at `who` that the pre-state already names (no second witness pair)
+        st.ghost['_split_hints'] = list(st.ghost.get('_split_hints', [])) + [
+            (U, who, z3.Const('Up', sym.SeqObjS), z3.Const('Us', sym.SeqObjS))]
         other = VRef(z3.Const('other_input', sym.Obj), 'Stream')
         self.finish(I, {'self': selfv, 'upstream': up, 'other': other})
         return selfv, [up], {}
@@ -318,6 +321,51 @@ class CombineLatestAddUpstream(IndexedInputs, TopoBase):
 
 
 PairArr = z3.ArraySort(sym.Obj, sym.SeqElemS)
+
+
+class CombineLatestAddUpstreamEmitOnGiven(CombineLatestAddUpstream):
+    """the node was built with an explicit emit_on (any value, including falsy ones such as the index 0): topology edits never
+    touch the emit_on subset"""
+    name = 'combine_latest._add_upstream[emit_on given]'
+
+    def build(self, I):
+        selfv, args, kw = CombineLatestAddUpstream.build(self, I)
+        cell = I.st.heap[selfv.loc]
+        init = VElem(z3.Const('initial_emit_on', sym.Elem))
+        I.st.assume(init.t != sym.c_none_elem)
+        eo = VSeq(z3.Const('emit_on0', sym.SeqObjS), K_STREAM)
+        I.st.heap[selfv.loc] = cell.with_field('_initial_emit_on', init).with_field('emit_on', eo)
+        I.st.ghost['emit_on0'] = eo
+        self.finish(I, dict(self.pre_args))
+        return selfv, args, kw
+
+    def clauses(self):
+        return [c for c in CombineLatestAddUpstream.clauses(self) if 'emit_on_follows' not in c.name] + [
+            Clause('C15.explicit_emit_on_subset_survives_topology_edits', ['C15', 'C01'], when='return',
+                   text='list(self.emit_on) == emit_on0',
+                   note='emit_on given at construction (even a falsy value like index 0) is never replaced by "all inputs"')]
+
+
+class CombineLatestRemoveUpstreamEmitOnGiven(CombineLatestRemoveUpstream):
+    name = 'combine_latest._remove_upstream[emit_on given]'
+
+    def build(self, I):
+        selfv, args, kw = CombineLatestRemoveUpstream.build(self, I)
+        cell = I.st.heap[selfv.loc]
+        init = VElem(z3.Const('initial_emit_on', sym.Elem))
+        I.st.assume(init.t != sym.c_none_elem)
+        eo = VSeq(z3.Const('emit_on0', sym.SeqObjS), K_STREAM)
+        I.st.heap[selfv.loc] = cell.with_field('_initial_emit_on', init).with_field('emit_on', eo)
+        I.st.ghost['emit_on0'] = eo
+        self.finish(I, dict(self.pre_args))
+        return selfv, args, kw
+
+    def clauses(self):
+        return CombineLatestRemoveUpstream.clauses(self) + [
+            Clause('C15.explicit_emit_on_subset_survives_topology_edits', ['C15', 'C01'], when='return',
+                   text='list(self.emit_on) == emit_on0')]
+
+
 
 
 class ZipRemoveUpstream(TopoBase):
@@ -414,7 +462,8 @@ class ZipAddUpstream(TopoBase):
                             'and list(self.upstreams) == old(list(self.upstreams)) + [upstream]')]
 
 
-ALL += [CombineLatestRemoveUpstream, CombineLatestAddUpstream, ZipRemoveUpstream, ZipAddUpstream]
+ALL += [CombineLatestRemoveUpstream, CombineLatestAddUpstream, CombineLatestAddUpstreamEmitOnGiven,
+        CombineLatestRemoveUpstreamEmitOnGiven, ZipRemoveUpstream, ZipAddUpstream]
 
 
 # --------------------------------------------------------------------------- Sink registry (T4)
